@@ -266,9 +266,33 @@ def shape_rubyparts(v):
   return d
 
 
-SHAPES = {"moving": shape_moving, "styled": shape_styled, "twop": shape_twop, "brset": shape_brset, "rubyparts": shape_rubyparts, "ruby": shape_ruby, "nested": shape_nested, "regions": shape_regions, "display": shape_display, "background": shape_background}
+def shape_order(v):
+  """three regions that are shown only while they have content (showBackground=whenActive), declared in the order r1, r2, r3, each with
+  one paragraph of its own with free timing: ANY order of first appearance, so a snapshot that lists or paints its regions in
+  anything but document order differs from the reference for some timing (the regions overlap on screen)"""
+  nid = _ids()
+  d = m.ContentDocument()
+  rs = []
+  for k, col in ((1, "red"), (2, "blue"), (3, "lime")):
+    r = m.Region(f"r{k}", d)
+    r.set_style(SP.ShowBackground, sp.ShowBackgroundType.whenActive)
+    r.set_style(SP.BackgroundColor, sp.NamedColors[col].value)
+    r.set_style(SP.Origin, sp.CoordinateType(sp.LengthType(10 * k, sp.LengthType.Units.pct), sp.LengthType(10 * k, sp.LengthType.Units.pct)))
+    r.set_style(SP.Extent, sp.ExtentType(sp.LengthType(50, sp.LengthType.Units.pct), sp.LengthType(50, sp.LengthType.Units.pct)))
+    d.put_region(r)
+    rs.append(r)
+  body = m.Body(d); body.set_id(nid()); d.set_body(body)
+  div = m.Div(d); div.set_id(nid()); body.push_child(div)
+  for k, (b, e, text) in enumerate((("p1b", "p1e", "one"), ("p2b", "p2e", "two"), ("p3b", "p3e", "three"))):
+    p = m.P(d); p.set_id(nid()); p.set_region(rs[k]); p.set_begin(v(b)); p.set_end(v(e)); div.push_child(p)
+    sp_ = m.Span(d); sp_.set_id(nid()); p.push_child(sp_); sp_.push_child(m.Text(d, text))
+  return d
+
+
+SHAPES = {"order": shape_order, "moving": shape_moving, "styled": shape_styled, "twop": shape_twop, "brset": shape_brset, "rubyparts": shape_rubyparts, "ruby": shape_ruby, "nested": shape_nested, "regions": shape_regions, "display": shape_display, "background": shape_background}
 # which of the timing variables are present (None otherwise); a few masks per shape keep the path count moderate
 MASKS = {
+  "order": [("p1b", "p2b", "p3b"), ("p1b", "p1e", "p2b", "p2e"), ("p1e", "p2b", "p3e")],
   "moving": [("ab", "ae"), ("ob", "oe")],
   "styled": [("ab", "ae"), ("pe", "ab")],
   "twop": [("b1", "e1"), ("e1", "b2"), ("b1", "e2")],
